@@ -250,6 +250,11 @@ func pairWorker(tier string, shard, nshard int) *WorkerOut {
 			if (ps[a].Heavy || ps[b].Heavy) && a != 0 {
 				continue
 			}
+			// error-path programs meet every signal and option set among the first programs of
+			// each signal, and each other; not the whole (quadratic) thorough program list
+			if thorough && (ps[a].Damage != nil) != (ps[b].Damage != nil) && a%5 != 0 {
+				continue
+			}
 			tuples = append(tuples, []int{a, b})
 			if ps[b].ConsLimit > 0 && ps[a].ConsLimit == 0 {
 				tuples = append(tuples, []int{b, a}) // the consumer with options is constructed first
